@@ -8,8 +8,8 @@ use poulpy_hal::{
 use poulpy_core::{
     GGSWExpandRows, GGSWFromGGLWE, GLWECopy, GLWEDecrypt, GLWENormalize, GLWEPacking, GLWERotate, GLWETrace, ScratchTakeCore,
     layouts::{
-        Dsize, GGLWE, GGLWEInfos, GGLWELayout, GGLWEPreparedToRef, GGSWInfos, GGSWToMut, GLWEAutomorphismKeyHelper, GLWEInfos,
-        GLWELayout, GLWESecretPreparedFactory, GLWEToMut, GLWEToRef, GetGaloisElement, LWEInfos, LWEToRef, Rank,
+        GGLWEInfos, GGLWELayout, GGLWEPreparedToRef, GGSWInfos, GGSWToMut, GLWEAutomorphismKeyHelper, GLWEInfos, GLWELayout,
+        GLWESecretPreparedFactory, GLWEToMut, GLWEToRef, GetGaloisElement, LWEInfos, LWEToRef,
     },
 };
 
@@ -39,6 +39,24 @@ pub trait CircuitBootstrappingExecute<BRA: BlindRotationAlgo, BE: Backend> {
         &self,
         block_size: usize,
         extension_factor: usize,
+        res_infos: &R,
+        cbt_infos: &A,
+    ) -> usize
+    where
+        R: GGSWInfos,
+        A: CircuitBootstrappingKeyInfos;
+
+    /// Returns the minimum scratch-space size (bytes) required by
+    /// [`circuit_bootstrapping_execute_to_exponent`][Self::circuit_bootstrapping_execute_to_exponent].
+    ///
+    /// On top of [`circuit_bootstrapping_execute_tmp_bytes`][Self::circuit_bootstrapping_execute_tmp_bytes]
+    /// it accounts for the `2^log_domain + 1` intermediate GLWE ciphertexts and the packing
+    /// scratch of the gap-adjusting post-processing step.
+    fn circuit_bootstrapping_execute_to_exponent_tmp_bytes<R, A>(
+        &self,
+        block_size: usize,
+        extension_factor: usize,
+        log_domain: usize,
         res_infos: &R,
         cbt_infos: &A,
     ) -> usize
@@ -157,21 +175,22 @@ where
         R: GGSWInfos,
         A: CircuitBootstrappingKeyInfos,
     {
-        let gglwe_infos: GGLWELayout = GGLWELayout {
-            n: res_infos.n(),
-            base2k: res_infos.base2k(),
-            k: res_infos.max_k(),
-            dnum: res_infos.dnum(),
-            dsize: Dsize(1),
-            rank_in: res_infos.rank().max(Rank(1)),
-            rank_out: res_infos.rank(),
-        };
+        circuit_bootstrap_core_tmp_bytes(self, block_size, extension_factor, 0, res_infos, cbt_infos)
+    }
 
-        self.blind_rotation_execute_tmp_bytes(block_size, extension_factor, res_infos, &cbt_infos.brk_infos())
-            .max(self.glwe_trace_tmp_bytes(res_infos, res_infos, &cbt_infos.atk_infos()))
-            .max(self.ggsw_from_gglwe_tmp_bytes(res_infos, &cbt_infos.tsk_infos()))
-            + GLWE::<Vec<u8>>::bytes_of_from_infos(res_infos)
-            + GGLWE::bytes_of_from_infos(&gglwe_infos)
+    fn circuit_bootstrapping_execute_to_exponent_tmp_bytes<R, A>(
+        &self,
+        block_size: usize,
+        extension_factor: usize,
+        log_domain: usize,
+        res_infos: &R,
+        cbt_infos: &A,
+    ) -> usize
+    where
+        R: GGSWInfos,
+        A: CircuitBootstrappingKeyInfos,
+    {
+        circuit_bootstrap_core_tmp_bytes(self, block_size, extension_factor, 1 << log_domain, res_infos, cbt_infos)
     }
 
     fn circuit_bootstrapping_execute_to_constant<R, L, D>(
@@ -209,11 +228,85 @@ where
         D: DataRef,
     {
         assert!(
-            scratch.available() >= self.circuit_bootstrapping_execute_tmp_bytes(key.block_size(), extension_factor, res, key)
+            scratch.available()
+                >= self.circuit_bootstrapping_execute_to_exponent_tmp_bytes(
+                    key.block_size(),
+                    extension_factor,
+                    log_domain,
+                    res,
+                    key
+                )
         );
 
         circuit_bootstrap_core(true, self, log_gap_out, res, lwe, log_domain, extension_factor, key, scratch);
     }
+}
+
+/// Scratch-space ledger of [`circuit_bootstrap_core`].
+///
+/// `steps` is the number of ciphertexts repacked by the `to_exponent` post-processing
+/// (`2^log_domain`), or `0` if no repacking takes place (`to_constant`).
+fn circuit_bootstrap_core_tmp_bytes<R, A, M, BRA: BlindRotationAlgo, BE: Backend>(
+    module: &M,
+    block_size: usize,
+    extension_factor: usize,
+    steps: usize,
+    res_infos: &R,
+    cbt_infos: &A,
+) -> usize
+where
+    R: GGSWInfos,
+    A: CircuitBootstrappingKeyInfos,
+    M: BlindRotationExecute<BRA, BE> + GLWETrace<BE> + GLWEPacking<BE> + GLWERotate<BE> + GLWENormalize<BE> + GGSWExpandRows<BE>,
+{
+    let brk_infos = cbt_infos.brk_infos();
+    let atk_infos = cbt_infos.atk_infos();
+    let tsk_infos = cbt_infos.tsk_infos();
+
+    // Blind rotation output (BRK layout) and its copy over the ATK base2k.
+    let glwe_brk_layout: GLWELayout = GLWELayout {
+        n: brk_infos.n(),
+        base2k: brk_infos.base2k(),
+        k: brk_infos.max_k(),
+        rank: brk_infos.rank(),
+    };
+    let glwe_atk_layout: GLWELayout = GLWELayout {
+        n: brk_infos.n(),
+        base2k: atk_infos.base2k(),
+        k: brk_infos.max_k(),
+        rank: brk_infos.rank(),
+    };
+    let glwe_brk: usize = GLWE::<Vec<u8>>::bytes_of_from_infos(&glwe_brk_layout);
+    let glwe_atk: usize = GLWE::<Vec<u8>>::bytes_of_from_infos(&glwe_atk_layout);
+
+    // [res_glwe_brk_layout | blind rotation, then base2k conversion]
+    let blind_rotation: usize = glwe_brk
+        + module
+            .blind_rotation_execute_tmp_bytes(block_size, extension_factor, &glwe_brk_layout, &brk_infos)
+            .max(module.glwe_normalize_tmp_bytes());
+
+    // Per-row trace (to_constant, or to_exponent without repacking) and rotation.
+    let row: usize = module
+        .glwe_trace_tmp_bytes(res_infos, &glwe_atk_layout, &atk_infos)
+        .max(module.glwe_rotate_tmp_bytes());
+
+    // [a_trace | partial trace] then [a_trace | cts_vec | rotations, packing]
+    let repack: usize = if steps != 0 {
+        glwe_atk
+            + module.glwe_trace_tmp_bytes(&glwe_atk_layout, &glwe_atk_layout, &atk_infos).max(
+                steps * glwe_atk
+                    + module
+                        .glwe_rotate_tmp_bytes()
+                        .max(module.glwe_pack_tmp_bytes(res_infos, &atk_infos))
+                        .max(module.glwe_pack_tmp_bytes(&glwe_atk_layout, &atk_infos))
+                        .max(module.glwe_trace_tmp_bytes(res_infos, &glwe_atk_layout, &atk_infos)),
+            )
+    } else {
+        0
+    };
+
+    // [res_glwe_atk_layout | ...] then the row expansion over the whole arena.
+    (glwe_atk + blind_rotation.max(row).max(repack)).max(module.ggsw_expand_rows_tmp_bytes(res_infos, &tsk_infos))
 }
 
 #[allow(clippy::too_many_arguments)]
